@@ -2,8 +2,10 @@ package props
 
 import (
 	"encoding/hex"
+	"encoding/json"
 	"fmt"
 	"strings"
+	"time"
 
 	"errsim/gen"
 	"errsim/obs"
@@ -12,6 +14,7 @@ import (
 
 	"github.com/cockroachdb/errors"
 	"github.com/cockroachdb/redact"
+	"github.com/getsentry/sentry-go"
 )
 
 // taintSetup is the scenario shared by C03, C06 and C12: a tree whose
@@ -136,6 +139,8 @@ func piiFreeOutputs(e error, wire []byte) (names []string, outs []string) {
 		ex = append(ex, k+"="+v)
 	}
 	add("BuildSentryReport extras", strings.Join(ex, "\x1e"))
+	// the event as it reaches a (capturing) sentry.Transport through ReportError
+	add("ReportError via sentry.Transport", reportViaTransport(e))
 	if wire != nil {
 		if enc, err := world.ParseWire(wire); err == nil {
 			var ws []string
@@ -165,7 +170,9 @@ func (c03) Run(t *tape.Tape, tier Tier) *Result {
 			if obs.IsPanic(out) {
 				continue // totality is C05's subject
 			}
-			ts.sim.Logf("out %s %d", names[i], len(out))
+			if names[i] != "ReportError via sentry.Transport" { // carries event ids and runtime context
+				ts.sim.Logf("out %s %d", names[i], len(out))
+			}
 			for _, tok := range unsafe {
 				if strings.Contains(out, tok.Tok) {
 					idx := strings.Index(out, tok.Tok)
@@ -186,6 +193,38 @@ func (c03) Run(t *tape.Tape, tier Tier) *Result {
 	res.Nontrivial = len(unsafe) >= 1 && ts.spec.Size() >= 2
 	res.Key = fmt.Sprintf("%s|%s|%d", ts.spec.Shape(), ts.prof, len(ts.route))
 	return res
+}
+
+type captureTransport struct{ events []*sentry.Event }
+
+func (c *captureTransport) Configure(sentry.ClientOptions) {}
+func (c *captureTransport) SendEvent(e *sentry.Event)      { c.events = append(c.events, e) }
+func (c *captureTransport) Flush(time.Duration) bool       { return true }
+
+var capture *captureTransport
+
+// reportViaTransport sends e through errors.ReportError with the SDK's own
+// transport seam pointed at a capturing transport and returns the event JSON.
+func reportViaTransport(e error) string {
+	if capture == nil {
+		capture = &captureTransport{}
+		if err := sentry.Init(sentry.ClientOptions{Transport: capture}); err != nil {
+			panic("sentry.Init: " + err.Error())
+		}
+	}
+	capture.events = nil
+	return obs.S(func() string {
+		errors.ReportError(e)
+		var b strings.Builder
+		for _, ev := range capture.events {
+			data, jerr := json.Marshal(ev)
+			if jerr != nil {
+				return "JSON-ERROR"
+			}
+			b.Write(data)
+		}
+		return b.String()
+	})
 }
 
 // ---- C06 ---------------------------------------------------------------
